@@ -5,6 +5,13 @@ remainders, error classes) into Coq terms, evaluation of several checkers over t
 import json, os, re, subprocess
 from vlib import *
 
+# set to "1" once the proposed repair of interpretOptions (copy the options message before each option in lenient
+# mode, take the copy back when the option reported an error) is committed to /repo: the checks then compare the lenient
+# and unlinked runs against the repaired model and C21 claims the theorems of Props/C21_repaired.v
+REPAIRED = os.environ.get("VERIF_OPTIONS_REPAIRED", "0") == "1"
+CHK_LENIENT = "opt_chk_lenient_fx" if REPAIRED else "opt_chk_lenient"
+CHK_UNLINKED = "opt_chk_unlinked_fx" if REPAIRED else "opt_chk_unlinked"
+
 HEADER = ("From Coq Require Import List ZArith NArith Bool String.\nImport ListNotations.\n"
           "From PV Require Import Common.Corr Model.Options Model.ProtocOptions.\n"
           "Open Scope string_scope.\nOpen Scope Z_scope.\n")
